@@ -315,7 +315,18 @@ func runC08Copy(c *Ctx, gname string) {
 					continue
 				}
 				n++
-				if strings.Contains(keyOf(e.Args[0]), "getCacheStructType(") || strings.Contains(keyOf(e.Args[0]), "cached(") {
+				k0 := keyOf(e.Args[0])
+				if strings.HasPrefix(k0, "append-into(") {
+					// an append writes into the array of the slice it is given: that slice must not be ROOTED in the
+					// cached value (a key that merely mentions cached data in an index expression is other memory)
+					inner := strings.TrimPrefix(k0, "append-into(")
+					if !strings.HasPrefix(inner, "(*valid.VStruct).getCacheStructType(") && !strings.HasPrefix(inner, "cached(") {
+						continue
+					}
+					bad = append(bad, fmt.Sprintf("%s: append onto %s, a (re)slice of the cached per-type info: the appended elements are written into the array shared by all later calls", p.Pos(instrPos(e.Site)), shorten(inner, 100)))
+					continue
+				}
+				if strings.Contains(k0, "getCacheStructType(") || strings.Contains(k0, "cached(") {
 					bad = append(bad, fmt.Sprintf("%s: store into %s, which is memory of the cached per-type info shared by all later calls", p.Pos(instrPos(e.Site)), shorten(keyOf(e.Args[0]), 100)))
 				}
 			}
